@@ -7,6 +7,7 @@ and generating responses, including Titan upload handlers.
 from abc import ABC, abstractmethod
 from pathlib import Path
 from typing import TYPE_CHECKING
+from urllib.parse import unquote
 
 from ..content.gemtext import generate_directory_listing
 from ..protocol.constants import (
@@ -96,11 +97,15 @@ class StaticFileHandler(RequestHandler):
         Returns:
             A GeminiResponse with the file contents or an error.
         """
-        # Get the requested path (remove leading slash)
-        requested_path = request.path.lstrip("/")
+        # Get the requested path (percent-decoded, leading slash removed)
+        requested_path = unquote(request.path).lstrip("/")
 
         # Construct the full file path
-        file_path = (self.document_root / requested_path).resolve()
+        try:
+            file_path = (self.document_root / requested_path).resolve()
+        except (OSError, ValueError, RuntimeError):
+            # NUL bytes, symlink loops, over-long names: nothing to serve
+            return GeminiResponse(status=StatusCode.NOT_FOUND.value, meta="Not found")
 
         # Path traversal protection: ensure the resolved path is within document root
         if not self._is_safe_path(file_path):
